@@ -20,6 +20,7 @@ CONSTANTS
   MaxDepth = 3
   MaxDocs = 1
 INVARIANT NoCrash
+INVARIANT Normalised
 INVARIANT HB
 INVARIANT HC
 INVARIANT HD
